@@ -266,7 +266,7 @@ fn memo_sig(s: &Sentence, kw: &HashSet<&'static str>) -> Option<String> {
         Ok(Ok((t, _))) => {
             let ix = tree::index(&t).ok()?;
             if judge(&t, &ix, s, kw).1.is_empty() {
-                Some(api::SIG_MEMO.to_string())
+                Some(api::memo_sig_for(&s.text))
             } else {
                 None
             }
